@@ -24,7 +24,9 @@ OS_PY = "dulwich/object_store.py"
 def run(prog: Program, rep, tier="quick"):
     rep.rule("R05.1", "TAINT/MUST-PRECEDE: wire-supplied wants are validated against the advertised set before they are used")
     rep.rule("R05.2", "MUST-PRECEDE: a thin pack is completed (extend_pack with the indexer's external refs) before it is installed")
-    rep.not_decided += ["that the transferred set is the complete closure", "that it is minimal", "negotiation modes, capabilities, depth",
+    rep.rule("R05.3", "edge completeness of MissingObjectFinder: commit->tree, tree->entries (only gitlinks skipped), tag->object; "
+                      "non-leaves are expanded; done-marking")
+    rep.not_decided += ["that the transferred set is the complete closure (only that every edge kind is followed)", "that it is minimal", "negotiation modes, capabilities, depth",
                         "byte identity of transferred objects"]
     m = prog.module(SERVER)
     n_entries = 0
@@ -101,5 +103,41 @@ def run(prog: Program, rep, tier="quick"):
     ip = prog.func(OS_PY, "DiskObjectStore._index_pack")
     src = norm(ip.node, 100000)
     rep.ob("R05.2", OS_PY, ip.qual, "external refs come from the indexer", "ext_refs()" in src, "", ip.node.lineno)
+    # ---- R05.3 edge completeness of the object walk that chooses what to send (a necessary condition of completeness)
+    nx = prog.func(OS_PY, "MissingObjectFinder.__next__")
+    need = {"Commit": [".tree"], "Tree": ["iteritems()", "S_ISGITLINK"], "Tag": [".object[1]"]}
+    for x in ast.walk(nx.node):
+        if isinstance(x, ast.If) and isinstance(x.test, ast.Call) and callee_name(x.test) == "isinstance" and len(x.test.args) == 2:
+            cls = norm(x.test.args[1])
+            if cls in need and need[cls] is not None:
+                body = " ".join(norm(s_, 10000) for s_ in x.body)
+                missing = [e for e in need[cls] if e not in body]
+                enq = "add_todo(" in body
+                rep.ob("R05.3", OS_PY, nx.qual, f"{cls}: the objects it references are enqueued ({', '.join(need[cls])})", not missing and enq,
+                       f"an edge of the object graph is not followed when choosing what to send ({missing or 'no add_todo'}): the "
+                       f"receiver ends up with an incomplete closure", x.lineno)
+                if cls == "Tree":
+                    # only gitlinks are skipped: the skip condition is exactly `not S_ISGITLINK(mode)`
+                    conds = [norm(i_.test) for s_ in x.body for i_ in ast.walk(s_) if isinstance(i_, ast.If)]
+                    rep.ob("R05.3", OS_PY, nx.qual, "Tree: only gitlink entries are skipped", conds == ["not S_ISGITLINK(m)"] or
+                           (len(conds) == 1 and "S_ISGITLINK" in conds[0] and conds[0].startswith("not ")),
+                           f"entries are filtered by {conds}: blobs or subtrees that satisfy the extra condition are never sent", x.lineno)
+                need[cls] = None
+    for cls, v in need.items():
+        if v is not None:
+            rep.ob("R05.3", OS_PY, nx.qual, f"{cls} objects are expanded", False, f"no isinstance(o, {cls}) branch", nx.node.lineno)
+    g = cfg_of(prog, nx)
+    rets = [i for i, n in g.nodes.items() if n.kind == "stmt" and isinstance(n.ast, ast.Return)]
+    done = [i for i, n in g.nodes.items() for c in node_calls(n) if dotted(c.func) == "self.sha_done.add"]
+    rep.ob("R05.3", OS_PY, nx.qual, "an object is marked done before it is returned (sent once)", bool(done) and not must_pass(g, rets, done), "", nx.node.lineno)
+    leaf_tests = [i for i, n in g.nodes.items() if n.kind == "test" and norm(n.ast) == "leaf"]
+    exp = [i for i, n in g.nodes.items() if n.kind == "test" and isinstance(n.ast, ast.Call) and callee_name(n.ast) == "isinstance"]
+    # expansion is skipped only for leaves
+    r = reach(g, [g.entry], include_srcs=True, avoid=set(exp), edge_ok=lambda a, b, l: not (a in leaf_tests and l == "true"))
+    rep.ob("R05.3", OS_PY, nx.qual, "only objects flagged as leaves are returned without being expanded", bool(leaf_tests) and not any(x in r for x in rets),
+           "a non-leaf object can be returned without its references being enqueued", nx.node.lineno)
+    at = prog.func(OS_PY, "MissingObjectFinder.add_todo")
+    rep.ob("R05.3", OS_PY, at.qual, "add_todo drops only what is already done", "not in self.sha_done" in norm(at.node, 10000), "", at.node.lineno)
+    rep.floor("R05.3", 7)
     rep.floor("R05.1", 3)
     rep.floor("R05.2", 5)
